@@ -1,6 +1,6 @@
 SPECIFICATION MCSpec
 CONSTANTS Classes = {1, 2, 3, 4}
-  Codes = {0, 3, 5, 7}
+  Codes = {0, 3, 7}
   SortedHash = TRUE
   Full = FALSE
   InitSizes = {2}
